@@ -62,6 +62,12 @@ CLAIMED["C06"] = dict(text="Bounded symbolic model checking over symbolic reals 
                   "signed volume, own-atom-name mapping, congruent second copy, templates unchanged), and of map_from_CoG.",
              design="DESIGN.md 4/C06", technique="symbolic execution of the real Python code with z3 (symx), QF_NRA obligations decided by fresh solvers on the cone of influence",
              note="scipy.optimize.minimize replaced by three arbitrary angles (covers every optimiser outcome), np.random.uniform by zeros, float64 allocations by object arrays; templates of <= 4 atoms; reals not floats. " + NOTE_COMMON)
+CLAIMED["C01"] = dict(text="Bounded symbolic model checking of the real parsers + MapToMolecule + ApplyLinks + ApplyModifications against an independent layout oracle: "
+                  "block sizes, input syntax, two-term interactions, link presence, residue graph (size, shape, names, order of residue ids vs node keys, "
+                  "key labelling), multi-residue fragments (single, mixed, doubled) and modification targets are solver-chosen; the residue-id offset, charge "
+                  "groups, charges and masses are symbolic terms, so one path covers every offset and every numeric attribute value.",
+             design="DESIGN.md 4/C01", technique="symbolic execution of the real Python code with z3 (symx): symbolic integers/reals for offsets and attributes, selectors for structure",
+             note="blocks of <= 3 atoms (+ one two-residue block), residue graphs of <= 3 (quick) / 4-5 (thorough) residues; .rtp input, parameter rendering and -mods spec parsing are outside. " + NOTE_COMMON)
 NOT_YET = {}
 def main():
     props = [json.loads(l) for l in open(os.path.join(ROOT, "properties.jsonl"))]
